@@ -611,21 +611,42 @@ def _gen(ctx, mode, n, p, calls, tag):
     return states
 
 
-def _walk_cases(states):
-    """GraphGen walk states -> cases (targets as node ids; names are concretised later)."""
-    cases = []
-    for srv, job, fault in states:
+def _walk_cases(states, faults, keep, rng, prefix):
+    """GraphGen "cases" states x "faults" states -> replay cases (targets as node ids; names are
+    concretised later).  Returns (cases kept, number enumerated).  The product is formed here from
+    the two TLC-enumerated factors: fault f applies at request k iff k < NReq (computed by the
+    specification, carried in fault.at of the "cases" states) and (f.at < 0 or k <= f.at)."""
+    base = []
+    for srv, job, nreq in states:
         def node(path):
             if [list(x) for x in path] == [[63]]:
                 return -1
             return path[-1][0] - 96 if path else 0
-        cases.append({"srv": {"n": srv["n"], "parent": list(srv["parent"]), "kind": list(srv["kind"]), "P": srv["P"],
-                              "tail": srv["tail"]},
-                      "job": {"call": job["call"], "targets": [node(p) for p in job["targets"]]}, "fault": fault})
-    cases.sort(key=lambda c: json.dumps(c, sort_keys=True))
-    for i, c in enumerate(cases):
-        c["id"] = f"gen{i}"
-    return cases
+        base.append(({"n": srv["n"], "parent": list(srv["parent"]), "kind": list(srv["kind"]), "P": srv["P"],
+                      "tail": srv["tail"]},
+                     {"call": job["call"], "targets": [node(p) for p in job["targets"]]}, nreq["at"]))
+    base.sort(key=lambda c: json.dumps(c, sort_keys=True))
+    faults = sorted(faults, key=lambda f: json.dumps(f, sort_keys=True))
+    nofault = {"at": -1, "kind": "none", "code": 0}
+    total = sum(1 + sum(1 for k in range(nreq) for f in faults if f["at"] < 0 or k <= f["at"]) for _, _, nreq in base)
+    cases = []
+    if total <= keep:
+        for bi, (srv, job, nreq) in enumerate(base):
+            cases.append((bi, nofault))
+            cases += [(bi, {"at": k, "kind": f["kind"], "code": f["code"]}) for k in range(nreq) for f in faults
+                      if f["at"] < 0 or k <= f["at"]]
+    else:       # every fault-free case + a VERIF_SEED-chosen subset of the faulty ones, spread over all libraries
+        per = max(1, (keep - len(base)) // max(1, len(base)))
+        for bi, (srv, job, nreq) in enumerate(base):
+            cases.append((bi, nofault))
+            opts = [(k, f) for k in range(nreq) for f in faults if f["at"] < 0 or k <= f["at"]]
+            for k, f in rng.sample(opts, min(per, len(opts))):
+                cases.append((bi, {"at": k, "kind": f["kind"], "code": f["code"]}))
+    out = []
+    for i, (bi, f) in enumerate(cases):
+        srv, job, _ = base[bi]
+        out.append({"id": f"{prefix}{bi}.{f['kind']}{f['at']}.{f['code']}", "srv": srv, "job": job, "fault": f})
+    return out, total
 
 
 def _for_tlc(t):
@@ -775,29 +796,19 @@ def run(ctx):
     fcases = sorted((j for _, j, _ in fstates), key=lambda j: json.dumps(j, sort_keys=True))
     filters = sorted({json.dumps(j["F"], sort_keys=True) for j in fcases})
     filters = [json.loads(x) for x in filters]
-    if thorough:
-        walk = _walk_cases(_gen(ctx, "walk", 4, 2, ["all"], "walk-all"))
-        rest = _walk_cases(_gen(ctx, "walk", 3, 2, ["filtered", "modsince", "crsince", "infolder"], "walk-rest"))
-        keep = 30000
-    else:
-        walk = _walk_cases(_gen(ctx, "walk", 3, 2, ["all"], "walk-all"))
-        rest = _walk_cases(_gen(ctx, "walk", 2, 2, ["filtered", "modsince", "crsince", "infolder"], "walk-rest"))
-        keep = 4000
-    n_enum = len(walk) + len(rest)
+    faults = [f for _, _, f in _gen(ctx, "faults", 0, 1, ["all"], "faults")]
     rng = random.Random(f"{ctx.seed}:subset")
-    exhaustive = True
-    def subset(cs, k):
-        nonlocal exhaustive
-        if len(cs) <= k:
-            return cs
-        exhaustive = False
-        nofault = [c for c in cs if c["fault"]["at"] < 0]
-        faulty = [c for c in cs if c["fault"]["at"] >= 0]
-        rng.shuffle(faulty)
-        return nofault + faulty[: max(0, k - len(nofault))]
-    for c in rest:
-        c["id"] = "r" + c["id"]
-    cases = subset(walk, keep) + subset(rest, keep)
+    if thorough:
+        walk, n1 = _walk_cases(_gen(ctx, "cases", 4, 2, ["all"], "all"), faults, 30000, rng, "a")
+        rest, n2 = _walk_cases(_gen(ctx, "cases", 3, 2, ["filtered", "modsince", "crsince", "infolder"], "rest"),
+                               faults, 30000, rng, "r")
+    else:
+        walk, n1 = _walk_cases(_gen(ctx, "cases", 3, 2, ["all"], "all"), faults, 4000, rng, "a")
+        rest, n2 = _walk_cases(_gen(ctx, "cases", 2, 2, ["filtered", "modsince", "crsince", "infolder"], "rest"),
+                               faults, 4000, rng, "r")
+    n_enum = n1 + n2
+    cases = walk + rest
+    exhaustive = len(cases) == n_enum
     big = _random_cases(ctx.seed, 400 if thorough else 120)
     repo = _repo_test_cases()
     ctx.log(f"TLC enumerated {n_enum} walk cases (replaying {len(cases)}), {len(fcases)} filter cases; "
